@@ -6,7 +6,7 @@
   `Gama/Gen/RefineObsdh.lean` (the `coordinates` lambda with the `adjusted` flag, the two tolerances, both branches,
   the list of tests of one turn — REGENERATED from the source on every run by tools/gen/c06_testlin.py).
   The adjustment (`project_equations()` + solver) and `refine_approx_coordinates()` enter as `RA.Env`; what is asked
-  of them is what `Props/C06Assembled.lean` (`C06_exact_network_solution_zero`) proves of the executed models.
+  of them is what `Props/C06Network.lean` (`C06_exact_network_solution_zero`) proves of the executed models.
 
   `stored σ xyz o`  = the observation after `refine_obsdh_reductions(IS)`; `curRed σ xyz o` = the reduction it recomputes
   (`none`: a `continue` guard fires or the class is not `S_Distance` / `Z_Angle`); `redOf true x …` = the reduction at
